@@ -13,13 +13,45 @@ const (
 	BIG2 = "18446744073709551615"
 )
 
+// hugeNumbers: values around the 63/64-bit boundaries, a 20- and a 21-digit number whose string
+// order is the opposite of their numeric order, and 2^64 written with leading zeros. They are put
+// into EVERY numeric position an ecosystem grammar has (hugeForms) so that a position parsed with a
+// fixed-width integer type shows up as a wrong order (P4), a broken preorder (P3) or a rejection.
+var (
+	hugeNumbers = []string{
+		"9223372036854775807",   // 2^63-1
+		"9223372036854775808",   // 2^63
+		BIG2,                    // 2^64-1
+		BIG,                     // 2^64
+		"18446744073709551617",  // 2^64+1
+		"99999999999999999999",  // 20 digits
+		"100000000000000000000", // 21 digits
+	}
+	hugeLeadingZeros = "00" + BIG
+)
+
+// hugeForms substitutes every huge number for the '#' of every template. Templates in lz also get
+// the leading-zero spelling (only where the grammar allows leading zeros in that position).
+func hugeForms(plain, lz []string) []string {
+	var out []string
+	for _, t := range cat(plain, lz) {
+		for _, h := range hugeNumbers {
+			out = append(out, strings.ReplaceAll(t, "#", h))
+		}
+	}
+	for _, t := range lz {
+		out = append(out, strings.ReplaceAll(t, "#", hugeLeadingZeros))
+	}
+	return out
+}
+
 // rawAlphabet is Χ of DESIGN §5 C07: 13 "characters" (the last two are a 2-byte rune and a lone
 // invalid UTF-8 byte).
 var rawAlphabet = []string{"0", "1", "9", ".", "-", "+", "~", ":", "a", "_", " ", "é", "\xff", "٣"} // the last one is a non-ASCII decimal digit (category Nd)
 
 // globalTokens is the part of Τ shared by all ecosystems.
 var globalTokens = []string{
-	"0", "1", "2", "9", "10", "01", "00", "000", BIG, "2.0.0.1", "1.2.3.4.5",
+	"0", "1", "2", "9", "10", "01", "00", "000", BIG, "100000000000000000000", "2.0.0.1", "1.2.3.4.5",
 	".", "-", "+", "~", "^", "_", "!", ":",
 	"a", "alpha", "beta", "rc", "pre", "post", "dev", "sp", "ga", "final", "snapshot", "p", "cvs", "-r1", "v", " ",
 }
@@ -109,6 +141,7 @@ func genSemver(th bool) []string {
 	pres := []string{"", "-alpha", "-alpha.1", "-alpha.beta", "-beta", "-beta.2", "-beta.11", "-rc.1", "-0", "-1", "-10", "-0.3.7", "-x-y", "-alpha.10", "-1.alpha", "-Alpha"}
 	out := cross(tuples(nums, 3, "."), pres)
 	out = append(out, cross([]string{"1.0.0", "0.1.10"}, pres, []string{"+build", "+001", "+b.1-x"})...)
+	out = append(out, hugeForms([]string{"#.0.0", "0.#.0", "0.0.#", "1.0.0-#", "1.0.0-rc.#", "1.0.0-alpha.#", "1.0.0-#.1", "1.0.0-rc.#+b"}, nil)...)
 	out = append(out, BIG+".0.0", "0."+BIG+".0", "0.0."+BIG, BIG2+".0.0", "0.0."+BIG2, BIG+"."+BIG+"."+BIG, "1.0.0-"+BIG, "1.0.0-"+BIG2, "1.0.0-alpha."+BIG, "1.0.0-alpha."+BIG2)
 	return out
 }
@@ -123,6 +156,7 @@ func genNuGet(th bool) []string {
 	out := cross(cores, pres)
 	out = append(out, cross([]string{"1.0.0", "1.0.0.1"}, []string{"", "-alpha", "-RC.2"}, []string{"+build", "+001"})...)
 	out = append(out, zeroForms([]string{"1", "1.2"}, []string{"", "-alpha", "-rc.1"}, ".")...)
+	out = append(out, hugeForms([]string{"1.0.0-#", "1.0.0-rc.#", "1.0.0-alpha.#", "1.0.0.1-RC.#"}, []string{"#.0", "1.#", "1.0.#", "1.0.0.#"})...)
 	out = append(out, "1.01", "1.01.0", "01.1.0", "1.0.01-alpha", BIG+".0", "1."+BIG, "1.0.0."+BIG, "1.0.0-"+BIG, "1."+BIG2)
 	return out
 }
@@ -139,6 +173,7 @@ func genDebian(th bool) []string {
 	}
 	out := cross(epochs, nums, suffix, revs)
 	out = append(out, zeroForms([]string{"1", "1.2", "1:1"}, []string{"", "~rc1", "-1", "-00", "a"}, ".")...)
+	out = append(out, hugeForms(nil, []string{"#", "1.#", "#:1.0", "1.0-#", "1.0-1ubuntu#", "1.0~rc#", "1.0+b#", "1.0-1.#", "1:1.0-#"})...)
 	out = append(out, "01", "1.01", "1.0-01", "1.0-1-1", "1:1.0-1-1", BIG, "1."+BIG, "1-"+BIG, BIG2, "1.0.a", "1.0+", "1.0~~a", "1.0-2", "1.0-0-1", "1.0-1-2")
 	return out
 }
@@ -157,6 +192,7 @@ func genMaven(th bool) []string {
 	}
 	out := cross(nums, q)
 	out = append(out, zeroForms([]string{"1", "1.2"}, []string{"", "-alpha", "-alpha-00", "-sp", "-00", "-SNAPSHOT"}, ".")...)
+	out = append(out, hugeForms(nil, []string{"#", "1.#", "1.0.#", "1.0-#", "1.0-alpha-#", "1.0-rc-#", "1.0-beta#", "1.0-sp-#", "1.0-foo-#"})...)
 	out = append(out, "01", "1.01", "1.0-alpha-01", BIG, "1."+BIG, "1.0-alpha-"+BIG, "1-"+BIG, BIG2)
 	// all-zero multi-digit components in every position
 	out = append(out, "1.00.1", "1.00.5", "1.000.1", "00.1", "1.0.00", "3.00.2", "1.00", "1.00-alpha-1", "1.00.1-rc-1", "2.00.0")
@@ -176,7 +212,8 @@ func genMavenDot(th bool) []string {
 	if th {
 		q = append(q, ".M1", ".milestone.2", ".GA", ".beta")
 	}
-	return cross(mavenNums(th), q)
+	out := cross(mavenNums(th), q)
+	return append(out, hugeForms(nil, []string{"1.0.Beta#", "1.0.CR#", "1.0.alpha.#", "1.#.Final"})...)
 }
 
 func genPackagist(th bool) []string {
@@ -191,6 +228,7 @@ func genPackagist(th bool) []string {
 	out := cross(nums, st)
 	out = append(out, prefixAll("v", cross([]string{"1.0", "1.0.0", "1.0.1"}, st))...)
 	out = append(out, zeroForms([]string{"1.2", "1.2.3"}, []string{"", "-beta1", "-beta00", "-p1", "-dev"}, ".")...)
+	out = append(out, hugeForms(nil, []string{"#.0", "1.#", "1.0.#", "1.0.0.#", "1.0.0-alpha#", "1.0.0-beta#", "1.0.0-RC#", "1.0.0-p#", "1.0.0-patch#"})...)
 	out = append(out, "1."+BIG, "1.0."+BIG, "1."+BIG+".0", BIG+".0", "1.0.0-alpha"+BIG, "1."+BIG2, "1.01", "1.0.0-beta01")
 	return out
 }
@@ -210,6 +248,7 @@ func genPyPI(th bool) []string {
 	out = append(out, el...)
 	// alternative (non-normalised but PEP 440 valid) spellings
 	out = append(out, zeroForms([]string{"1", "1.2", "1!1"}, []string{"", "a00", "rc1", ".post00", ".dev00", "+00", "+abc.00"}, ".")...)
+	out = append(out, hugeForms(nil, []string{"#", "1.#", "#!1.0", "1.0a#", "1.0b#", "1.0rc#", "1.0.post#", "1.0.dev#", "1.0+#", "1.0+abc.#", "1.0rc1.post#.dev1"})...)
 	out = append(out, "1.0alpha1", "1.0-1", "1.0.RC1", "1.0c1", "v1.0", "1.0-rev1", "1.0_dev1", "1.0.post", "1.0.dev", "1.0-ALPHA", "1.0+ABC", "1.0pre1", "1.0-r1", " 1.0 ", "01.0", "1.01",
 		BIG, "1."+BIG, BIG+"!1", "1.0a"+BIG, "1.0.post"+BIG, "1.0.dev"+BIG, "1.0+"+BIG, "1."+BIG2)
 	return out
@@ -227,6 +266,7 @@ func genRedHat(th bool) []string {
 	}
 	out := cross(epochs, nums, suffix, rels)
 	out = append(out, zeroForms([]string{"1", "1.2", "1:1"}, []string{"", "~rc1", "^00", "-1", "-00", "a"}, ".")...)
+	out = append(out, hugeForms(nil, []string{"#.0", "1.#", "#:1.0-1", "1.0-#", "1.0-1.el#", "1.0~rc#", "1.0^git#", "1.0-#.el8", "1:1.0-#"})...)
 	out = append(out, "1", "01.0", "1.01", "1.0-01", BIG, "1."+BIG, "1.0-"+BIG, "1."+BIG2, "1.0_1", "1.0+1")
 	return out
 }
@@ -240,6 +280,7 @@ func genRubyGems(th bool) []string {
 	}
 	out := cross(nums, pre)
 	out = append(out, zeroForms([]string{"1", "1.2"}, []string{"", ".rc1", ".rc00", ".a"}, ".")...)
+	out = append(out, hugeForms(nil, []string{"#", "1.#", "1.0.#", "1.0.rc#", "1.0.rc.#", "1.0.beta.#"})...)
 	out = append(out, "01", "1.01", "1.0.rc01", BIG, "1."+BIG, "1.0.rc"+BIG, "1."+BIG2, "1.0.0.0.1")
 	return out
 }
@@ -257,6 +298,7 @@ func genAlpine(th bool) []string {
 	out = append(out, cross([]string{"1.0", "1.1", "1"}, []string{"a", "b"}, []string{"", "_rc1", "_p1"}, []string{"", "-r1"})...)
 	out = append(out, zeroForms([]string{"1", "1.2", "00"}, []string{"", "_rc1", "-r1", "a", "_cvs0", "_cvs", "_cvs1"}, ".")...)
 	out = append(out, "1.0_cvs0", "1.0_cvs", "1.0_svn0", "1.0_p0", "1.0_rc0", "1.0_alpha0")
+	out = append(out, hugeForms(nil, []string{"#", "1.#", "1.0.#", "1.0_p#", "1.0_rc#", "1.0_alpha#", "1.0_git#", "1.0-r#", "1.0_p1-r#"})...)
 	out = append(out, "1.0~abc", "1.0_p1~abc-r1", "1.0a~0f", "1.0~abc-r1", BIG, "1."+BIG, "1.0_p"+BIG, "1.0-r"+BIG, "1."+BIG2)
 	return out
 }
@@ -271,6 +313,7 @@ func genCRAN(th bool) []string {
 	)
 	out = append(out, zeroForms([]string{"1.2", "00.1"}, []string{""}, ".")...)
 	out = append(out, "1.00", "1-00", "1.000", "1.2-00")
+	out = append(out, hugeForms(nil, []string{"#.0", "1.#", "1.0.#", "1.0-#", "1.0.0.#"})...)
 	out = append(out, "1.01", "01.1", "1.0-01", BIG+".0", "1."+BIG, "1.0-"+BIG, "1."+BIG2)
 	return out
 }
@@ -314,7 +357,7 @@ func (g *group) tokens() []string { return uniq(cat(globalTokens, g.extra)) }
 // multi-digit component meets an absent or a "0" component ("1.00" vs "1" vs "1.0") in BOTH tiers.
 var (
 	coreCommon = []string{"0", "1", "00", "01", ".", "-"}
-	coreTail   = []string{"10", "000", BIG}
+	coreTail   = []string{"10", "000", BIG, "99999999999999999999", "100000000000000000000"}
 )
 
 // coreTokens is the alphabet of the 3-token part of S1.
